@@ -121,10 +121,10 @@ class udp(packet_base):
 
     def hdr(self, payload):
         self.len = len(payload) + udp.MIN_LEN
-        self.csum = self.checksum()
+        self.csum = self.checksum(payload=payload)
         return struct.pack('!HHHH', self.srcport, self.dstport, self.len, self.csum)
 
-    def checksum(self, unparsed=False):
+    def checksum(self, unparsed=False, payload=None):
         """
         Calculates the checksum.
         If unparsed, calculates it on the raw, unparsed data.  This is
@@ -145,7 +145,9 @@ class udp(packet_base):
             payload_len = len(self.raw)
             payload = self.raw
         else:
-            if isinstance(self.next, packet_base):
+            if payload is not None:
+                pass
+            elif isinstance(self.next, packet_base):
                 payload = self.next.pack()
             elif self.next is None:
                 payload = bytes()
